@@ -1,6 +1,6 @@
 """Unsupported constructs / illegal placements injected at statement and expression positions
 (C08, C02), curated edge programs, and the known-findings plumbing shared by the checks."""
-import ast, json, os, random
+import ast, json, os, random, sys
 from common import load_known_findings
 
 # ---------------------------------------------------------------- statement-level injections
@@ -307,10 +307,123 @@ def _fstring_spec_control_char(tree):
     return False
 
 
+_SCOPES = (ast.FunctionDef, ast.AsyncFunctionDef, ast.Lambda, ast.ClassDef, ast.ListComp, ast.SetComp, ast.DictComp, ast.GeneratorExp)
+
+
+def _bound_here(stmts, params=()):
+    """names bound directly in a block of statements (not in nested scopes)"""
+    out = set(params)
+
+    def walk(n):
+        if isinstance(n, (ast.FunctionDef, ast.AsyncFunctionDef, ast.ClassDef)):
+            out.add(n.name)
+            for d in n.decorator_list:
+                walk(d)
+            return
+        if isinstance(n, (ast.Lambda, ast.ListComp, ast.SetComp, ast.DictComp, ast.GeneratorExp)):
+            # a walrus inside a comprehension binds in the enclosing scope
+            for m in ast.walk(n):
+                if isinstance(m, ast.NamedExpr) and not isinstance(n, ast.Lambda):
+                    out.add(m.target.id)
+            return
+        if isinstance(n, ast.Name) and isinstance(n.ctx, (ast.Store, ast.Del)):
+            out.add(n.id)
+        if isinstance(n, (ast.Import, ast.ImportFrom)):
+            for al in n.names:
+                out.add((al.asname or al.name).split(".")[0])
+        for ch in ast.iter_child_nodes(n):
+            walk(ch)
+    for st in stmts:
+        walk(st)
+    return out
+
+
+def _inner_reads(cls, kinds, skip_first_iter=True):
+    """names loaded inside the scopes of the given kinds written directly in the class body (nested ones included),
+    other than in the first iterable of a comprehension, and not bound by those scopes themselves"""
+    reads = set()
+
+    def loads(n, shadow):
+        if isinstance(n, ast.Name):
+            if isinstance(n.ctx, ast.Load) and n.id not in shadow:
+                reads.add(n.id)
+            return
+        if isinstance(n, ast.Lambda):
+            a = n.args
+            sh = shadow | {x.arg for x in a.posonlyargs + a.args + a.kwonlyargs} | ({a.vararg.arg} if a.vararg else set()) | ({a.kwarg.arg} if a.kwarg else set())
+            loads(n.body, sh)
+            return
+        if isinstance(n, (ast.ListComp, ast.SetComp, ast.DictComp, ast.GeneratorExp)):
+            sh = shadow | {m.id for g in n.generators for m in ast.walk(g.target) if isinstance(m, ast.Name)}
+            for ch in ast.iter_child_nodes(n):
+                if isinstance(ch, ast.comprehension):
+                    for f in (ch.iter, *ch.ifs):
+                        loads(f, sh)
+                else:
+                    loads(ch, sh)
+            return
+        for ch in ast.iter_child_nodes(n):
+            loads(ch, shadow)
+
+    def find(n):
+        if isinstance(n, (ast.FunctionDef, ast.AsyncFunctionDef, ast.ClassDef)):
+            return
+        if isinstance(n, kinds):
+            if isinstance(n, ast.Lambda):
+                loads(n, set())
+            else:
+                sh = {m.id for g in n.generators for m in ast.walk(g.target) if isinstance(m, ast.Name)}
+                for i, g in enumerate(n.generators):
+                    if i == 0:
+                        find(g.iter)          # evaluated in the class body itself
+                    else:
+                        loads(g.iter, sh)
+                    for f in g.ifs:
+                        loads(f, sh)
+                for f in ("elt", "key", "value"):
+                    if hasattr(n, f):
+                        loads(getattr(n, f), sh)
+            return
+        for ch in ast.iter_child_nodes(n):
+            find(ch)
+    for st in cls.body:
+        find(st)
+    return reads
+
+
+def _class_comp_reads_member_312(tree):
+    """KF-D72: (3.12+ host) a list / set / dict comprehension written directly in a class body reads, outside its first
+    iterable, a name that the class body binds"""
+    if sys.version_info < (3, 12):
+        return False
+    for n in ast.walk(tree):
+        if isinstance(n, ast.ClassDef):
+            if _bound_here(n.body) & _inner_reads(n, (ast.ListComp, ast.SetComp, ast.DictComp)):
+                return True
+    return False
+
+
+def _class_in_function_inner_reads_member(tree):
+    """KF-D73: a class nested in a function; a lambda / comprehension / generator expression of the class body reads a name
+    that both the class body and an enclosing function bind"""
+    def visit(n, fn_bound):
+        if isinstance(n, (ast.FunctionDef, ast.AsyncFunctionDef)):
+            a = n.args
+            params = {x.arg for x in a.posonlyargs + a.args + a.kwonlyargs} | ({a.vararg.arg} if a.vararg else set()) | ({a.kwarg.arg} if a.kwarg else set())
+            fn_bound = fn_bound | _bound_here(n.body, params)
+        elif isinstance(n, ast.ClassDef) and fn_bound:
+            if _bound_here(n.body) & fn_bound & _inner_reads(n, (ast.Lambda, ast.ListComp, ast.SetComp, ast.DictComp, ast.GeneratorExp)):
+                return True
+        return any(visit(ch, fn_bound) for ch in ast.iter_child_nodes(n))
+    return visit(tree, frozenset())
+
+
 SHAPES = {
     "walrus_in_while_test": _walrus_in_while_test,
     "walrus_in_for_iter": _walrus_in_for_iter,
     "fstring_spec_control_char": _fstring_spec_control_char,
+    "class_comp_reads_member_312": _class_comp_reads_member_312,
+    "class_in_function_inner_reads_member": _class_in_function_inner_reads_member,
 }
 
 
